@@ -123,6 +123,22 @@ c.modifies('$alive', '_state', '_exception', '_result', '$cancel_req', '$wjob', 
            '$created_vt', '_job')
 
 
+def _entry_preconditions(c):
+    """the state-dependent preconditions of the coroutine (Contract.entry_requires) hold when the task is created;
+    they still hold when its first step runs because the coroutine's own rely keeps them (A-NO-EAGER: nothing of
+    the coroutine has run in between)"""
+    from pyvc.contracts_api import Ctx
+    coro = c.a.coro
+    if coro.kind != 'coro':
+        return z3.BoolVal(True)
+    cc, captured = coro.extra
+    return And([fn(Ctx(pre=c.pre, cur=c.pre, args=captured)) for _lab, fn in getattr(cc, 'entry_requires', [])]
+               or [z3.BoolVal(True)])
+
+
+c.requires('entry-preconditions-of-the-coroutine', _entry_preconditions)
+
+
 def _create_task_post(c):
     t = c.result
     coro = c.a.coro
